@@ -16,6 +16,7 @@ stream `c12` (root after every operation, node store digest, `specRoot` of the f
 root_from_set / nodes_from_set); see the end of this file for what is proved about that layer.
 -/
 import FuelVerif.Lemmas.SparseTree
+import FuelVerif.Lemmas.SparseBytes
 namespace FuelVerif.Smt
 open Tree
 
@@ -138,5 +139,31 @@ theorem root_depends_only_on_map (hext : KeyExt bit n) (P : Hashes K V Hh)
     (ops₁ ops₂ : List (Op K V)) (h : ∀ q, finalMap ops₁ q = finalMap ops₂ q) :
     (run bit n ops₁).hash P = (run bit n ops₂).hash P := by
   rw [tree_depends_only_on_map bit n hext ops₁ ops₂ h]
+
+/-! ### at fuel-merkle's concrete types (32-byte keys MSB first, the statement's hash constructors) -/
+
+open FuelVerif.SmtBytes FuelVerif.Gen.Sparse in
+/-- **C12 for 32-byte keys and the statement's hashes** (`SmtBytes.hashes_match_statement`: leaf =
+H(0x00‖key‖H(value)), node = H(0x01‖l‖r), empty = 32 zero bytes; `SmtBytes.keyExt_bytes`): for every
+hash function with 32-byte output, every history over 32-byte keys and every duplicate-free listing `S`
+of its final map, the root is the compact sparse Merkle root of `S` over the 256 key bits. -/
+theorem root_history_bytes (H : Bytes → Bytes) (hl : ∀ x, (H x).length = keyBytes)
+    (ops : List (Op Key32 Hash32)) (S : List (Key32 × Hash32)) (hS : KeysNodup S)
+    (hag : ∀ q, lookup q S = finalMap ops q) :
+    specRoot bit32 (hashes32 H hl) 256 0 S = some ((run bit32 256 ops).hash (hashes32 H hl)) := by
+  have := root_history bit32 width keyExt_bytes (hashes32 H hl) ops S hS hag
+  rw [width_eq] at this
+  exact this
+
+/-- FULL STATEMENT of the from_set clause, on the storage-level transcription (`SmtStore.fromSet`,
+`rootFromSet`, `nodesFromSet`): NOT proved — the three-node-window merge of `from_set` is compared with
+the real code, the reference root and `specRoot` by stream `c12` (`fromset` lines) on clustered sets,
+shuffled and with duplicate keys. -/
+def FromSetStatement (H : Bytes → Bytes) : Prop :=
+  ∀ (set : List (Bytes × Bytes)), (∀ kv ∈ set, kv.1.length = FuelVerif.Gen.Sparse.keyBytes) →
+    let m := set.foldl (fun m kv => alInsert kv.1 (H kv.2) m) []
+    ∃ r, specRoot FuelVerif.SmtBytes.bitOf (FuelVerif.SmtBytes.hashes H) 256 0 m = some r ∧
+      FuelVerif.SmtStore.rootFromSet H set = .ok r ∧
+      (∃ nodes, FuelVerif.SmtStore.nodesFromSet H set = .ok (r, nodes))
 
 end FuelVerif.Smt
